@@ -11,7 +11,7 @@ package cache
 // C04: the key is injective on (name, type, class, AD, CD, DO); two runs of
 // getMsgKey on arbitrary queries that yield the same non-empty key were given
 // the same question with the same DNSSEC flags.
-//@ func getMsgKey [C04]
+//@ func getMsgKey [C04, C03]
 //@   requires q != nil
 //@   ensures (result == "") == (q.Response || q.Opcode != 0 || len(q.Question) != 1)
 //@   relational ensures result1 == result2 && result1 != "" ==> q1.Question[0].Name == q2.Question[0].Name
